@@ -1146,9 +1146,13 @@ func (ctx *internalContext) Watch(options WatchOptions) error {
 func (ctx *internalContext) Cancel() {
 	ctx.mutex.Lock()
 
-	// Ignore disposed contexts
+	// Ignore disposed contexts, but still wait for a build that is in progress
 	if ctx.didDispose {
+		build := ctx.activeBuild
 		ctx.mutex.Unlock()
+		if build != nil {
+			build.waitGroup.Wait()
+		}
 		return
 	}
 
@@ -1165,10 +1169,14 @@ func (ctx *internalContext) Cancel() {
 }
 
 func (ctx *internalContext) Dispose() {
-	// Only dispose once
+	// Only dispose once, but still wait for a build that is in progress
 	ctx.mutex.Lock()
 	if ctx.didDispose {
+		build := ctx.activeBuild
 		ctx.mutex.Unlock()
+		if build != nil {
+			build.waitGroup.Wait()
+		}
 		return
 	}
 	ctx.didDispose = true
